@@ -256,17 +256,17 @@ def run(ctx) -> Report:
     for mm, nn in rect:
         A = T.symbolic("A", (mm, nn))
         f, got = call("determinant_expr", A)
-        cmp_scalar(rep, "C06-poly/pdet", f, f"determinant_expr (pseudo) on {mm}x{nn}", got, o_pseudo_det(A), ctx, real_only=True)
+        cmp_scalar(rep, "C06-poly/pdet", f, f"determinant_expr (pseudo) on {mm}x{nn}", got, o_pseudo_det(A), ctx)
         f, got = call("pseudo_determinant_expr", A)
-        cmp_scalar(rep, "C06-poly/pdet", f, f"pseudo_determinant_expr on {mm}x{nn}", got, o_pseudo_det(A), ctx, real_only=True)
+        cmp_scalar(rep, "C06-poly/pdet", f, f"pseudo_determinant_expr on {mm}x{nn}", got, o_pseudo_det(A), ctx)
         if (mm, nn) in ((2, 1), (3, 1), (3, 2), (4, 2)):
             f, got = call("inverse_expr", A)
-            cmp_scalar(rep, "C06-poly/pinv", f, f"inverse_expr (pseudo) on {mm}x{nn}", got, o_pseudo_inverse(A), ctx, real_only=True)
+            cmp_scalar(rep, "C06-poly/pinv", f, f"inverse_expr (pseudo) on {mm}x{nn}", got, o_pseudo_inverse(A), ctx)
     A = T.symbolic("A", (3, 2))
     f, got = call("generic_pseudo_determinant_expr", A)
-    cmp_scalar(rep, "C06-poly/pdet", f, "generic_pseudo_determinant_expr on 3x2", got, o_pseudo_det(A), ctx, real_only=True)
+    cmp_scalar(rep, "C06-poly/pdet", f, "generic_pseudo_determinant_expr on 3x2", got, o_pseudo_det(A), ctx)
     f, got = call("generic_pseudo_inverse_expr", A)
-    cmp_scalar(rep, "C06-poly/pinv", f, "generic_pseudo_inverse_expr on 3x2", got, o_pseudo_inverse(A), ctx, real_only=True)
+    cmp_scalar(rep, "C06-poly/pinv", f, "generic_pseudo_inverse_expr on 3x2", got, o_pseudo_inverse(A), ctx)
 
     # ---- LowerCompoundAlgebra handlers ----------------------------------------
     lca = prog.get_class("ufl.algorithms.apply_algebra_lowering.LowerCompoundAlgebra")
